@@ -305,8 +305,9 @@ Qed.
 (* every step, kill included, preserves the invariant *)
 Lemma step_inv s e s' : Inv s -> step Protocol s e = Some s' -> Inv s'.
 Proof.
-  destruct e; eauto using step_spawn, step_openw, step_write, step_closew, step_rename, step_killw,
-    step_openr, step_read, step_closer, step_killr.
+  intros HI H. destruct e;
+    [ eapply step_spawn | eapply step_openw | eapply step_write | eapply step_closew | eapply step_rename
+    | eapply step_killw | eapply step_openr | eapply step_read | eapply step_closer | eapply step_killr ]; eassumption.
 Qed.
 
 Lemma exec_inv evs : forall s s', Inv s -> exec Protocol s evs = Some s' -> Inv s'.
